@@ -22,6 +22,20 @@ def cubeMgr : Version → Manager
   | .v2 => ⟨Gen.V2.cubeBase.toNat, Gen.V2.rootInitRem, Gen.V2.rootInitIncr, Gen.V2.cubeInit2, Gen.V2.cubeNext, Gen.V2.cubeNextDigit⟩
   | .v3 => ⟨Gen.V3.cubeBase.toNat, Gen.V3.rootInitRem, Gen.V3.rootInitIncr, Gen.V3.cubeInit2, Gen.V3.cubeNext, Gen.V3.cubeNextDigit⟩
 
+/-- problems the extractor reported for a version (untranslatable source) -/
+def genProblems : Version → List String
+  | .v1 => Gen.V1.problems
+  | .v2 => Gen.V2.problems
+  | .v3 => Gen.V3.problems
+
+/-- the extractor could not translate (part of) the root arithmetic of this version: the generated
+manager is a placeholder, so the executable model has no opinion on digits of roots. Containment:
+the properties whose theorems use the managers (C01–C03, C13, C18) report the broken tie through
+the extractor's problem list; properties about the layers above must not. -/
+def rootArithmeticUntranslated (v : Version) : Bool :=
+  (genProblems v).any fun s =>
+    (s.splitOn "Manager").length > 1 || (s.splitOn "computeRootDigits").length > 1
+
 def chunkSize : Version → Nat
   | .v1 => Gen.V1.kMemoizerChunkSize.toNat
   | .v2 => Gen.V2.kMemoizerChunkSize.toNat
